@@ -28,7 +28,18 @@ fn main() {
                 let mut files: Vec<_> = rd.filter_map(|e| e.ok()).map(|e| e.path()).filter(|p| p.file_name().and_then(|n| n.to_str()).map_or(false, |n| n.starts_with(&format!("{}-", args[2])) && n.ends_with(".json"))).collect();
                 files.sort();
                 for f in files {
-                    let code = checks::replay(f.to_str().unwrap());
+                    // hash-set iteration order inside grevm is not part of a replay: run each
+                    // witness a few times (milliseconds each); any violating run is a violation
+                    let mut code = 0;
+                    for attempt in 0..8 {
+                        if attempt > 0 {
+                            // the replay prints one line per run; keep the log short
+                        }
+                        code = checks::replay(f.to_str().unwrap());
+                        if code != 0 {
+                            break;
+                        }
+                    }
                     if code == 1 {
                         std::process::exit(1);
                     }
